@@ -101,7 +101,7 @@ def r2_panics(text, fn, site_exprs, log):
     edits = []
     for k, (a, b) in enumerate(sites, 1):
         e = site_exprs(k)
-        new = 'vpanic(Ghost(%s)) /*panic-site %d*/' % (e, k)
+        new = '{ let ghost valid_ = (%s); vpanic(Ghost(valid_)) /*panic-site %d*/ }' % (e, k)
         edits.append((a, b, new))
         log.add('R2', fn, text[a:b], new)
     return apply_edits(text, edits), len(sites)
@@ -332,17 +332,32 @@ def r3_compound(text, fn, log, skip=()):
 _R5 = re.compile(r'(?<![A-Za-z0-9_])as\s+(f64|usize|i32|i64|u64|u32|isize|u8|f32)(?![A-Za-z0-9_])')
 
 
-def r5_casts(text, fn, log):
+def r5_casts(text, fn, log, float_src=()):
+    """`E as f64` -> cast_f64(E) (E integer).  Int->int casts stay native.  float_src: 1-based ordinals
+    (among the non-f64 casts of the function, textual order) whose source is a float -> cast_<ty>_f(E)."""
+    nth = 0
+    done = 0
     while True:
         m = mask(text)
         mk = None
+        k = 0
         for cand in _R5.finditer(m):
-            # skip `use x as y` (not in fn bodies) – nothing to do
-            mk = cand
-            break
+            if cand.group(1) == 'f64':
+                mk = cand
+                break
+            k += 1
+            if k > done:
+                done = k
+                nth += 1
+                if nth in float_src:
+                    mk = cand
+                    break
         if not mk:
             return text
         ty = mk.group(1)
+        if ty != 'f64':
+            ty = ty + '_f'
+            done -= 1
         s = operand_start(m, mk.start())
         operand = text[s:mk.start()].strip()
         if not operand:
